@@ -1,5 +1,6 @@
 import TaskModel.Vars.Lemmas
 import TaskModel.Vars.Cli
+import TaskModel.Vars.CompileLemmas
 import TaskModel.Gen.VarLayers
 import TaskModel.Gen.Load
 /-!
@@ -40,16 +41,27 @@ the including file's merged globals — otherwise a parent global would outrank 
 statement's `vars:` -/
 theorem C10_included_layer_is_included_files_vars : TaskModel.Gen.Load.mergePassesIncludedVars = true := by decide
 
-/-- the model's layer order and task-dir flags are that order -/
-theorem docOrder_matches :
-    docOrder.map (fun s => s.inTaskDir) = TaskModel.Gen.VarLayers.order.map (fun p => p.2 == "task") := by decide
+/-- the loop of `getVariables` each model site stands for -/
+def siteCodeName : Site → String
+  | .taskfileEnv => "Compiler.TaskfileEnv"
+  | .taskfileVars => "Compiler.TaskfileVars"
+  | .includeVars => "ast.Task.IncludeVars"
+  | .includedTaskfileVars => "ast.Task.IncludedTaskfileVars"
+  | .callVars => "Call.Vars"
+  | .taskVars => "ast.Task.Vars"
 
-/-- **Highest-priority definition wins, evaluated over lower priorities.** If the last
-definition of `m` in processing order is `d` (in layer `L`, after the definitions `dpre` of
-that layer), the value every later consumer sees is `d` evaluated over exactly what was
-resolved before it — nothing defined later (higher sites define other names only) and
-nothing else can change it. -/
-theorem C10_last_wins (w : World) (cx : Ctx) (base : Env) (c : Cache)
+/-- **the model's layer order IS the code's loop order, site by site** (names and task-dir
+flags of the extracted table; swapping two sites of `docOrder` breaks this) -/
+theorem docOrder_matches :
+    docOrder.map (fun s => (siteCodeName s, if s.inTaskDir then "task" else "root")) = TaskModel.Gen.VarLayers.order := by decide
+
+/-- the code resolves the task directory after exactly the three layers the model's `dirAfter = 3` says -/
+theorem dirAfter_matches :
+    TaskModel.Gen.VarLayers.marks.take 6 =
+      ["osEnviron", "special", "loop:Compiler.TaskfileEnv", "loop:Compiler.TaskfileVars", "loop:ast.Task.IncludeVars", "taskDirResolved"] := by decide
+
+/-- last-write-wins over an arbitrary list of layers (helper; the directory is whatever `stepLayer` uses) -/
+theorem last_wins_layers (w : World) (cx : Ctx) (base : Env) (c : Cache)
     (pre post : List Layer) (L : Layer) (dpre dpost : List (Name × VarDef)) (m : Name) (d : VarDef)
     (hL : L.defs = dpre ++ (m, d) :: dpost) (hdpost : m ∉ names dpost)
     (hpost : ∀ l ∈ post, m ∉ names l.defs) :
@@ -64,6 +76,37 @@ theorem C10_last_wins (w : World) (cx : Ctx) (base : Env) (c : Cache)
   simp only [stepLayer, hL]
   exact ⟨_, _, rfl, evalBlock_last w _ dpre dpost m d _ _ hdpost⟩
 
+/-- **Highest-priority definition wins, evaluated over lower priorities** — for the six sites in
+the documented order, the task compiled alone (empty cache), the directory pinned.  If the
+last definition of `m` in processing order is `d`, at site `s` after the definitions `dpre` of
+that site, and no higher site defines `m`, the value every consumer sees is `d` evaluated
+over exactly what the sites below `s` and `dpre` resolved (`stateBefore`), in the directory of
+that site: the root directory, or for the included-Taskfile and task sites the task's `dir:`
+rendered over what the global and include-statement layers resolved (`siteDir`). -/
+theorem C10_last_wins (w : World) (cx : Ctx) (hcx : cx.dirAfter = 3) (base : Env) (defs : Site → Defs) (s : Site)
+    (dpre dpost : Defs) (m : Name) (d : VarDef)
+    (hs : defs s = dpre ++ (m, d) :: dpost) (hdpost : m ∉ names dpost)
+    (hafter : ∀ s' ∈ sitesAfter s, m ∉ names (defs s')) :
+    get (getVariables w cx base (layersOf defs) []).env m =
+      (evalDef w (siteDir w cx base defs s)
+        (evalBlock w (siteDir w cx base defs s) dpre (stateBefore w cx base defs s).env (stateBefore w cx base defs s).cache).1
+        (evalBlock w (siteDir w cx base defs s) dpre (stateBefore w cx base defs s).env (stateBefore w cx base defs s).cache).2 d).1 := by
+  rw [layersOf_split defs s]
+  simp only [getVariables]
+  rw [runLayers_append]
+  simp only [runLayers]
+  have hpost : ∀ l ∈ (sitesAfter s).map (lay defs), m ∉ names l.defs := by
+    intro l hl
+    simp only [List.mem_map] at hl
+    obtain ⟨s', hs', rfl⟩ := hl
+    exact hafter s' hs'
+  rw [runLayers_frame _ _ _ _ _ _ hpost]
+  have hdir := layerDir_site w cx hcx base defs s
+  simp only [stateBefore] at hdir ⊢
+  simp only [stepLayer, List.length_map, Nat.zero_add, hdir]
+  simp only [lay, hs]
+  exact evalBlock_last w _ dpre dpost m d _ _ hdpost
+
 /-- a name defined at no site keeps the value of the process environment / special variables -/
 theorem C10_undefined (w : World) (cx : Ctx) (base : Env) (c : Cache) (layers : List Layer) (m : Name)
     (h : ∀ l ∈ layers, m ∉ names l.defs) : get (getVariables w cx base layers c).env m = get base m :=
@@ -71,13 +114,13 @@ theorem C10_undefined (w : World) (cx : Ctx) (base : Env) (c : Cache) (layers : 
 
 /-- lower-priority sites are irrelevant once a higher one defines the name with a literal:
 the documented order, site by site -/
-theorem C10_literal_priority (w : World) (cx : Ctx) (base : Env) (c : Cache)
-    (pre post : List Layer) (L : Layer) (dpre dpost : List (Name × VarDef)) (m : Name) (v : Str)
-    (hL : L.defs = dpre ++ (m, .lit [.text v]) :: dpost) (hdpost : m ∉ names dpost)
-    (hpost : ∀ l ∈ post, m ∉ names l.defs) :
-    get (getVariables w cx base (pre ++ L :: post) c).env m = v := by
-  obtain ⟨s, dir, _, h⟩ := C10_last_wins w cx base c pre post L dpre dpost m _ hL hdpost hpost
-  rw [h]; simp [evalDef, render]
+theorem C10_literal_priority (w : World) (cx : Ctx) (hcx : cx.dirAfter = 3) (base : Env) (defs : Site → Defs) (s : Site)
+    (dpre dpost : Defs) (m : Name) (v : Str)
+    (hs : defs s = dpre ++ (m, .lit [.text v]) :: dpost) (hdpost : m ∉ names dpost)
+    (hafter : ∀ s' ∈ sitesAfter s, m ∉ names (defs s')) :
+    get (getVariables w cx base (layersOf defs) []).env m = v := by
+  rw [C10_last_wins w cx hcx base defs s dpre dpost m _ hs hdpost hafter]
+  simp [evalDef, render]
 
 /-! ## environment seen by commands -/
 
@@ -180,6 +223,172 @@ example : envChain [] [(0, .read 9)] [(2, .read 3), (3, .lit [119]), (4, .read 0
     [(0, []), (3, [119]), (2, [119]), (4, [])] := by decide                                       -- later TASK literal: seen
 example : envChain [] [(0, .lit [118])] [(1, .read 0), (2, .read 1)] = [(0, [118]), (1, [118]), (2, [118])] := by decide
 example : envChain [(0, [111])] [(0, .lit [118])] [(1, .read 0)] = [(0, [118]), (1, [111])] := by decide   -- the process value wins
+
+/-! ## special variables: "available unless overridden"
+
+`Vars.special` is a definition of the model (it used to be harness input); the table of
+`getSpecialVars`, the POST layer of `compiledTask`, the `MATCH` binding of `GetTask`, the
+command-line layer of `cmd/task` and `Vars.Merge` are pinned by `Gen.VarLayers`. -/
+
+theorem special_table_matches :
+    TaskModel.Gen.VarLayers.specialVars =
+      [("ALIAS", "Call.Task"), ("ROOT_DIR", "Compiler.Dir"),
+       ("ROOT_TASKFILE", "filepathext.SmartJoin(Compiler.Dir, Compiler.Entrypoint)"),
+       ("TASK", "ast.Task.Task"), ("TASKFILE", "ast.Task.Location.Taskfile"),
+       ("TASKFILE_DIR", "filepath.Dir(ast.Task.Location.Taskfile)"),
+       ("TASK_DIR", "filepathext.SmartJoin(Compiler.Dir, ast.Task.Dir)"),
+       ("TASK_EXE", "filepath.ToSlash(os.Args[0])"), ("TASK_VERSION", "version.GetVersion()"),
+       ("USER_WORKING_DIR", "Compiler.UserWorkingDir")] ∧
+    TaskModel.Gen.VarLayers.postLayerKey = "strings.ToUpper(‹checker›.Kind())" ∧
+    TaskModel.Gen.VarLayers.postLayerAfterLayers = true ∧
+    TaskModel.Gen.VarLayers.matchBoundWhen = "name-or-wildcard-match" ∧
+    TaskModel.Gen.VarLayers.cliLayer =
+      ["set:CLI_ARGS", "set:CLI_FORCE", "set:CLI_SILENT", "set:CLI_VERBOSE", "set:CLI_OFFLINE", "merge-into:‹executor›.Taskfile.Vars"] ∧
+    TaskModel.Gen.VarLayers.mergeSetsInOrder = true := by decide
+
+/-- the model's special variables are exactly the names of that table -/
+theorem special_names (tc : TaskCtx) :
+    (special tc).map Prod.fst = [nTASK_EXE, nROOT_TASKFILE, nROOT_DIR, nUSER_WORKING_DIR, nTASK_VERSION, nTASK, nTASK_DIR,
+      nTASKFILE, nTASKFILE_DIR, nALIAS] := rfl
+
+theorem get_postLayer_other (fp : Option (Name × Str)) (e : Env) (n : Name) (h : ∀ p, fp = some p → p.1 ≠ n) :
+    get (postLayer fp e) n = get e n := by
+  cases fp with
+  | none => rfl
+  | some p => exact get_set_other e p.1 n p.2 (fun hn => h p rfl hn.symm)
+
+/-- **available**: a special variable that no site defines (and that is not the task's POST-layer
+name) has its special value in every template of the task — whatever the process environment holds -/
+theorem C10_special_available (w : World) (home : Str) (cd : CallDesc) (n : Name) (v : Str)
+    (hsp : (special cd.tc).lookup n = some v)
+    (hundef : ∀ s, n ∉ names (siteDefs w.osEnv cd s)) (hfp : ∀ p, cd.fp = some p → p.1 ≠ n) :
+    get (compile w home cd []).vars n = v := by
+  simp only [compile]
+  rw [get_postLayer_other _ _ _ hfp, C10_undefined]
+  · simp [TaskModel.Vars.get, baseEnv, List.lookup_append, hsp]
+  · intro l hl
+    simp only [layersOf, List.mem_map] at hl
+    obtain ⟨s, _, rfl⟩ := hl
+    exact hundef s
+
+/-- **unless overridden**: a literal definition at any site — with no higher site defining the name —
+wins over the special value (and over everything below) -/
+theorem C10_special_overridden (w : World) (home : Str) (cd : CallDesc) (s : Site) (dpre dpost : Defs) (n : Name) (v : Str)
+    (hs : siteDefs w.osEnv cd s = dpre ++ (n, .lit [.text v]) :: dpost) (hdpost : n ∉ names dpost)
+    (hafter : ∀ s' ∈ sitesAfter s, n ∉ names (siteDefs w.osEnv cd s'))
+    (hfp : ∀ p, cd.fp = some p → p.1 ≠ n) :
+    get (compile w home cd []).vars n = v := by
+  simp only [compile]
+  rw [get_postLayer_other _ _ _ hfp]
+  exact C10_literal_priority w (ctxOf cd.tc) rfl _ _ s dpre dpost n v hs hdpost hafter
+
+/-- the clause at full strength: a definition at a site always wins over what Task provides itself -/
+def C10_special_unless_overridden_full : Prop :=
+  ∀ (w : World) (home : Str) (cd : CallDesc) (s : Site) (dpre dpost : Defs) (n : Name) (v : Str),
+    siteDefs w.osEnv cd s = dpre ++ (n, .lit [.text v]) :: dpost → n ∉ names dpost →
+    (∀ s' ∈ sitesAfter s, n ∉ names (siteDefs w.osEnv cd s')) →
+    get (compile w home cd []).vars n = v
+
+/-- the POST layer wins whatever the sites define: `compiledTask` sets `CHECKSUM` / `TIMESTAMP` after all layers -/
+theorem C10_post_layer_wins (w : World) (home : Str) (cd : CallDesc) (n : Name) (v : Str) (h : cd.fp = some (n, v)) :
+    get (compile w home cd []).vars n = v := by
+  simp [compile, postLayer, h]
+
+private def tc0 : TaskCtx := { rootDir := [47, 114], entrypoint := [], userWorkingDir := [47, 114], taskName := [116], rawDir := [],
+                               dirTpl := [], taskfile := [47, 114, 47, 84], alias := [116] }
+private def shN : Shell := fun cmd _ _ => cmd
+
+/-- **false of the code as it is** (open finding `C10-fingerprint-vars-override-user-definition`):
+`vars: {CHECKSUM: mine}` in a task with sources prints the hash -/
+theorem C10_special_unless_overridden_counterexample : ¬ C10_special_unless_overridden_full := by
+  intro h
+  have := h ⟨shN, []⟩ [] { tc := tc0, genv := [], files := [⟨[], [], []⟩], level := 0, callVars := [],
+                           taskVars := [(nCHECKSUM, .lit [.text [109]])], fp := some (nCHECKSUM, [76]) }
+    .taskVars [] [] nCHECKSUM [109] rfl (by decide) (by decide)
+  revert this
+  decide
+
+/-- … and true for every name but the task's POST-layer name (`C10_special_overridden`) -/
+theorem C10_special_unless_overridden_partial (w : World) (home : Str) (cd : CallDesc) (s : Site) (dpre dpost : Defs) (n : Name) (v : Str)
+    (hfp : ∀ p, cd.fp = some p → p.1 ≠ n)
+    (hs : siteDefs w.osEnv cd s = dpre ++ (n, .lit [.text v]) :: dpost) (hdpost : n ∉ names dpost)
+    (hafter : ∀ s' ∈ sitesAfter s, n ∉ names (siteDefs w.osEnv cd s')) :
+    get (compile w home cd []).vars n = v :=
+  C10_special_overridden w home cd s dpre dpost n v hs hdpost hafter hfp
+
+/- non-vacuity: TASK and TASK_DIR of a root task with a templated dir (the RAW text is joined: the quirk),
+a global that overrides TASK, ALIAS of a call through an alias -/
+private def tc1 : TaskCtx := { tc0 with rawDir := [123, 123, 46, 86, 125, 125], dirTpl := [.ref 6], alias := [97] }
+private def cd1 : CallDesc := { tc := tc1, genv := [], files := [⟨[], [], [(6, .lit [.text [115]]), (nTASK, .lit [.text [117]])]⟩],
+                                level := 0, callVars := [], taskVars := [(1, .sh [.text [75]] none)] }
+example : let r := compile ⟨shN, []⟩ [] cd1 []
+    (get r.vars nTASK, get r.vars nTASK_DIR, get r.vars nALIAS, r.dir) =
+      ([117], [47, 114, 47, 123, 123, 46, 86, 125, 125], [97], [47, 114, 47, 115]) := by decide
+
+/-! ## the seventh site: globals of other files, merged into the root's
+
+`Taskfile.Merge` merges the `vars:` of every included file into the root file's globals, in
+the canonical merge order of C09, later wins, an overridden name keeps its position.  The
+layer `Compiler.TaskfileVars` of EVERY task is that merged map (`globalLayer`).  Which
+documented order holds:
+
+* for a task of an INCLUDED file (long-form include) the documented chain holds as written:
+  task vars > call vars > variables of the included Taskfile (`includedVarsFor`: the merged
+  variables of the outermost included file on its path) > vars of the include statements
+  (`includeVarsFor`: inner statement first, outer ones over it) > global vars > environment;
+* for a ROOT task the chain is task vars > call vars > global vars > environment, where
+  "global vars" are NOT the root file's own `vars:` alone: a same-named global of an included
+  file replaces the root's value (`C10_root_task_sees_included_global`) — modelled as what
+  the code does (audit B-C10-incl-global), the property names no site for it. -/
+
+theorem C10_root_task_layers (os : Env) (cd : CallDesc) (h : cd.level = 0) :
+    siteDefs os cd .includeVars = [] ∧ siteDefs os cd .includedTaskfileVars = [] := by
+  simp [siteDefs, includeVarsFor, includedVarsFor, h]
+
+/-- the merged globals of a root file with one included file, by name: the included file's definition wins -/
+theorem C10_global_merge_lookup (root inc : FileDesc) (hr : (names root.vars).Nodup) (hi : (names inc.vars).Nodup) (x : Name) :
+    (globalLayer [root, inc] []).lookup x =
+      match (withDir inc.incDir inc.vars).lookup x with
+      | some d => some d
+      | none => root.vars.lookup x := by
+  simp only [globalLayer, taskfileVars, mergedUp]
+  have : mergeDefs (mergeDefs root.vars (withDir inc.incDir inc.vars)) [] = mergeDefs root.vars (withDir inc.incDir inc.vars) := rfl
+  rw [this]
+  exact lookup_mergeDefs _ _ hr (by rw [names_withDir]; exact hi) x
+
+/-- **A ROOT task sees the included file's value of a same-named global.** -/
+theorem C10_root_task_sees_included_global (w : World) (home : Str) (cd : CallDesc) (root inc : FileDesc) (x : Name) (b : Str)
+    (hfiles : cd.files = [root, inc]) (hcli : cd.cli = []) (hlevel : cd.level = 0)
+    (hr : (names root.vars).Nodup) (hi : (names inc.vars).Nodup)
+    (hinc : inc.vars.lookup x = some (.lit [.text b]))
+    (hcall : x ∉ names (callLayer cd.callVars cd.wildcards)) (htask : x ∉ names cd.taskVars)
+    (hfp : ∀ p, cd.fp = some p → p.1 ≠ x) :
+    get (compile w home cd []).vars x = b := by
+  have hlk : (globalLayer [root, inc] []).lookup x = some (.lit [.text b]) := by
+    rw [C10_global_merge_lookup root inc hr hi x, lookup_withDir_lit _ _ _ _ hinc]
+  have hnd : (names (globalLayer [root, inc] [])).Nodup := by
+    simp only [globalLayer, taskfileVars, mergedUp]
+    exact nodup_names_mergeDefs _ _ (nodup_names_mergeDefs _ _ hr (by rw [names_withDir]; exact hi)) (by simp [names])
+  obtain ⟨pre, post, hsplit, hpost⟩ := lookup_split _ x _ hnd hlk
+  apply C10_special_overridden w home cd .taskfileVars pre post x b
+  · simp only [siteDefs, hfiles, hcli]; exact hsplit
+  · exact hpost
+  · intro s' hs'
+    have hroot := C10_root_task_layers w.osEnv cd hlevel
+    simp only [sitesAfter, List.mem_cons, List.mem_nil_iff, or_false] at hs'
+    rcases hs' with rfl | rfl | rfl | rfl
+    · rw [hroot.1]; simp [names]
+    · rw [hroot.2]; simp [names]
+    · exact hcall
+    · exact htask
+  · exact hfp
+
+/- non-vacuity (the audit's reproduction): root `vars: {X: root, R: 'r-{{.X}}'}`, included `vars: {X: from-a}` —
+the root task sees `from-a`, also through `R` (the overriding definition keeps the root's position) -/
+private def fRoot : FileDesc := ⟨[], [], [(0, .lit [.text [114]]), (1, .lit [.text [114, 45], .ref 0])]⟩
+private def fInc : FileDesc := ⟨[47, 114, 47, 97], [], [(0, .lit [.text [97]])]⟩
+example : let r := compile ⟨shN, []⟩ [] { tc := tc0, genv := [], files := [fRoot, fInc], level := 0, callVars := [], taskVars := [] } []
+    (get r.vars 0, get r.vars 1) = ([97], [114, 45, 97]) := by decide
 
 /-! ## the command-line layer ("global vars (including NAME=value command-line assignments)")
 
